@@ -54,8 +54,10 @@ def run(chk):
                 "(b) age ladders at fixed depth walking away from the ridge: T non-increasing with age; (c) T(depth 0) = top "
                 "temperature, T(max depth) = bottom temperature for plate and linear models; models: half space, plate model, "
                 "constant-age plate, linear. non-trivial = ladder inside the plate with a bottom temperature > top temperature")
-    chk.assumptions = ["erfc laws are premises of the half-space theorems; two-sided bounds of the truncated plate series are not "
-                       "proved (searched); slab models (mass conserving, plate model) are probed when the slab generator is available"]
+    chk.assumptions = ["erfc laws are premises of the half-space and mass-conserving theorems; for the truncated plate series the strict "
+                       "envelope is false near the ridge (known findings D15, D38): what is proved is the overshoot bound (amplitude sum of "
+                       "the terms), checked on every plate-model depth ladder at every age; the plate reference of the mass conserving slab "
+                       "is covered by the search only"]
     chk.prove()
     common.build_repo()
     rng = random.Random(chk.seed * 32452867 + 20)
